@@ -8,6 +8,7 @@
   before/after) and by C18; in the functional model the transaction is an immutable value.
 -/
 import BtcVerif.Proofs.SigHash
+import BtcVerif.Gen.Facts
 
 namespace BtcVerif.Props.C03
 open BtcVerif BtcVerif.Model
@@ -52,6 +53,26 @@ theorem bip143_preimage_eq (H : Bytes → Bytes) (tx : Tx) (nIn : Nat) (script :
     bip143Pre H tx nIn script ht amount
       = .ok (Spec.bip143Preimage H tx tx.inputs[nIn] nIn script ht amount) :=
   bip143Pre_eq_spec H tx nIn script ht amount hn
+
+/-- **non-mutation, structural part** (tie T1-style: `Gen/Facts.lean` is regenerated from the source on
+    every run). The legacy function's first action is `tx = tx.Clone()`; every assignment it makes goes
+    through that clone: to the clone's own fields, to `Script`/`Sequence` of the clone's inputs and to
+    `Value`/`Script` of the clone's outputs; `Clone` copies element by element with `vin.Clone()`,
+    `vout.Clone()`, `witness.Clone()`, which copy the scripts (`make` + `copy`) and the outpoint — i.e. the
+    clone is deep at exactly the depth of the writes; the BIP143 function assigns nothing. A change that
+    makes the working copy shallower, or adds a write elsewhere, breaks this obligation (and the Go-side
+    deep snapshot comparison finds the input). -/
+theorem clone_structure_pinned :
+    Gen.Facts.tx_Tx_SignatureHashForInput_calls.head? = some "tx.Clone" ∧
+    Gen.Facts.tx_Tx_SignatureHashForInput_assigns.all (fun a =>
+      ["tx.Witnesses", "hashed[0]", "tx.Inputs[nInput].Script", "tx.Inputs", "vin.Script", "vin.Sequence",
+       "tx.Outputs", "tx.Outputs[i].Value", "tx.Outputs[i].Script"].contains a) = true ∧
+    (["vin.Clone", "vout.Clone", "witness.Clone"].all Gen.Facts.tx_Tx_Clone_calls.contains) = true ∧
+    (["clone.Inputs[i]", "clone.Outputs[i]", "clone.Witnesses[i]"].all Gen.Facts.tx_Tx_Clone_assigns.contains) = true ∧
+    (["i.PrevOut.Clone", "make", "copy"].all Gen.Facts.tx_Input_Clone_calls.contains) = true ∧
+    (["make", "copy"].all Gen.Facts.tx_Output_Clone_calls.contains) = true ∧
+    (["make", "copy"].all Gen.Facts.tx_Witness_Clone_calls.contains) = true ∧
+    Gen.Facts.tx_Tx_SignatureHashForWitnessInput_assigns = [] := by decide
 
 /-! non-vacuity: SIGHASH_SINGLE|ANYONECANPAY on input 1 of a two-input, two-output transaction -/
 example : Spec.legacyIsOne ⟨1, [default, default], [default, default], none, 0⟩ 1 0x83 = false := by decide
